@@ -900,10 +900,11 @@ func trickleAgainstStalledStore(c *ctx, r Rng, i int) {
 	}
 	n := 0
 	if variant == "time" {
-		n = 18
+		// many more batches than the bound, so that a loaded machine (late timers) still shows an unbounded backlog
+		n = 45
 		for k := 0; k < n; k++ {
 			send([]map[string]any{{"_id": k}}, 40*time.Millisecond)
-			time.Sleep(130 * time.Millisecond)
+			time.Sleep(100 * time.Millisecond)
 		}
 	} else {
 		n = 81
